@@ -247,6 +247,7 @@ pub fn s1(property: &str, scenario: &str, seed: u64, o: &S1Opts) -> Plan {
             // in one run of ten every clock read inside a call returns a later instant than the one before
             clock_bump_us: if c.chance(&[49], 100_000) { *c.pick(&[50], &[1u64, 5, 20]) } else { 0 },
             variable_size_input: false,
+            own_snapshots: c.chance(&[51], 200_000),
         },
         nodes,
         links,
@@ -359,6 +360,7 @@ pub fn synctest(property: &str, seed: u64, faulty: bool, invalid: bool) -> Plan 
             rng_seed: mix(seed ^ 0x77),
             clock_bump_us: 0,
             variable_size_input: false,
+            own_snapshots: c.chance(&[13], 300_000),
         },
         nodes: Vec::new(),
         links: Vec::new(),
@@ -542,6 +544,7 @@ fn c05_base_plan(property: &str, seed: u64, b: (u8, usize, usize, bool)) -> Plan
             rng_seed: 11,
             clock_bump_us: 0,
             variable_size_input: false,
+            own_snapshots: false,
         },
         nodes,
         links,
@@ -866,6 +869,7 @@ fn two_peer_base(property: &str, scenario: &str, seed: u64, c: &Ch, allow_specta
             rng_seed: mix(seed ^ 0x77),
             clock_bump_us: 0,
             variable_size_input: false,
+            own_snapshots: c.chance(&[119], 200_000),
         },
         nodes,
         links,
@@ -1180,7 +1184,14 @@ fn c08_live(property: &str, seed: u64, index: u64) -> Plan {
         let kind = if death { c.range(&[11, j], 6, 8) } else { c.range(&[11, j], 0, 8) };
         let (from_addr, payload) = match kind {
             0 => (real_from, Payload::MutateLastInput(InputMutation::StatusCount((np + 1 + c.range(&[12, j], 0, 2) as usize) % (np + 3)))),
-            1 => (real_from, Payload::MutateLastInput(InputMutation::NegativeStart(c.range(&[13, j], 1, 1000) as i32))),
+            1 => (
+                real_from,
+                Payload::MutateLastInput(if c.chance(&[27, j], 500_000) {
+                    InputMutation::NegativeStart(c.range(&[13, j], 1, 1000) as i32)
+                } else {
+                    InputMutation::NegativeStartLong { start: *c.pick(&[28, j], &[-1, -2, -2, -3, -5, i32::MIN, i32::MIN + 1]), extra: c.range(&[29, j], 0, 8) as u8 }
+                }),
+            ),
             2 => (real_from, Payload::MutateLastInput(InputMutation::Bytes(random_bytes))),
             3 => (real_from, Payload::MutateLastInput(InputMutation::Bytes(small))),
             4 => (
@@ -1626,6 +1637,7 @@ pub fn c15(property: &str, seed: u64, index: u64) -> Plan {
             rng_seed: mix(seed ^ 0x77),
             clock_bump_us: 0,
             variable_size_input: false,
+            own_snapshots: false,
         },
         nodes,
         links,
